@@ -1,5 +1,7 @@
 SPECIFICATION Spec
 CONSTANT Deep = FALSE
+CONSTANT StrictLeapGuard = FALSE
+INVARIANT ImplRefines
 INVARIANT WellFormed2
 INVARIANT SubIsAddNeg
 INVARIANT SinceAntisymmetric
